@@ -62,7 +62,8 @@ class C08(Check):
                     if cand:
                         t = rng.choice(cand)
                         v0 = sorted(t["c"])[0]
-                        c2[part].insert(0, {"c": {v: (x * (1 + 5e-6) if v == v0 else x) for v, x in t["c"].items()}, "k": t["k"]})
+                        gap = rng.choice([5e-6, 5e-6, 4e-7])   # 4e-7: alike to six significant digits
+                        c2[part].insert(0, {"c": {v: (x * (1 + gap) if v == v0 else x) for v, x in t["c"].items()}, "k": t["k"]})
             elif m < 0.68:
                 # a guarantee of one operand is verbatim an assumption of the other, comes first and introduces its variable first
                 shared = [v for v in c1["ins"] if v in c2["ins"]]
